@@ -10,6 +10,43 @@ BASELINE_OFF = ("cd /repo && env -u SYM_METANET_VERIF /venv/bin/python -m pytest
 
 # id -> (technique, level text, level note, design ref)
 CHECKS = {
+    "C12": (
+        "exhaustive enumeration of step/compile histories on the same network objects with caller-held inputs; purity "
+        "invariants after every operation and bitwise comparison with the same step on a fresh network",
+        "Bounded exhaustive exploration of histories on real objects: every history up to length 3 (quick) / 4 (thorough) "
+        "over 16 operations (steps with 3 engines x 2 value sets x 2 option sets, simulation-loop feedback steps, "
+        "to_function) on 4 harness networks containing every element kind, plus NumPy-only histories (length 4 / 5) in "
+        "which all parameters are 0-d arrays; after every operation all caller-held arrays, dictionaries, symbols and "
+        "element/model parameters must be unchanged and every step must reproduce, bit for bit, the same step on a fresh "
+        "network.",
+        "Two value sets and two option sets; caller symbols compared by identity and printed form.",
+        "DESIGN.md section 3, C12",
+    ),
+    "C13": (
+        "exhaustive enumeration of engine-selection/step histories with counting engine proxies; one-variable reference "
+        "model of the current engine",
+        "Bounded exhaustive exploration of histories on the real module state: every history up to length 3 (quick) / 4 "
+        "(thorough) over 12 operations (use by valid/invalid name, arbitrary object, three spy instances, "
+        "get_current_engine, step with and without explicit engine) on 3 harness networks; the spies are EngineBase "
+        "subclasses delegating to the real engines. After every operation the model's `current` must be "
+        "get_current_engine() and sym_metanet.engine; a step must be computed entirely by the engine it must use (exact "
+        "per-primitive call counts, zero calls on every other spy, value types of that engine) and leave the selection "
+        "untouched.",
+        "Calls between sibling static methods inside an engine are not counted.",
+        "DESIGN.md section 3, C13",
+    ),
+    "C14": (
+        "exhaustive enumeration of network programs x all permutations of the construction calls / renamings / "
+        "turn-rate scalings; metamorphic comparison of per-element next states on the real code",
+        "Bounded exhaustive exploration on the implementation: for every valid topology/configuration within the bound, "
+        "ALL permutations of the construction-call list (<=6 calls; else all orders within 2 transpositions), "
+        "nodes-first, bulk and add_path-based construction, 4 renamings (incl. all-equal names and library auto-names) "
+        "and 4 scale factors per branching node are built through the real API and stepped (NumPy and compiled SX); "
+        "per-element next states must equal those of the base network and the recovered inflow shares must equal "
+        "beta/sum(beta).",
+        "Tolerance 0 for renaming, 1e-12 for reordering/scaling; 2 base vectors (thorough: single excursions on SX).",
+        "DESIGN.md section 3, C14",
+    ),
     "C11": (
         "exhaustive enumeration of network programs x option sets x value vectors with negative entries x engines; "
         "metamorphic comparison of the real step with options against the real plain step wrapped in harness clamps",
